@@ -14,7 +14,7 @@ from ..ser import compact_size
 
 RULE = ("completeness: consistent chains whose blocks have every tx count 1..64 (then random counts up to 600, powers of two and odd "
         "counts at several tree levels), legacy+segwit, transactions with counts/lengths at the CompactSize boundaries, x start offsets (first processed block linked against the retained record "
-        "start-1, also when the blocks below --start are pruned index-only records) x 8 coins (real genesis block at height 0 for bitcoin/testnet3/litecoin/dogecoin) must pass --verify with all outputs "
+        "start-1, also when the blocks below --start are pruned index-only records; also with --end alone) x 8 coins (real genesis block at height 0 for bitcoin/testnet3/litecoin/dogecoin) must pass --verify with all outputs "
         "equal to the model. soundness (fault enumeration on the stored bytes): every single-bit flip of the merkle-root field and of the "
         "prev-hash field of chosen blocks, sampled (quick) / all (thorough) single-bit flips of the txid-covered transaction bytes, a "
         "block swapped for a foreign block, a wrong block 0 per coin: the run must exit non-zero, name that height, and leave no "
@@ -92,25 +92,26 @@ def positive_case(spec):
     v, runs, shapes = [], 0, []
     tip = chain[-1][0]
     starts = spec.get("starts") or ([0] if real_g else []) + [1, tip // 2, tip]
-    for s in sorted(set(x for x in starts if 0 <= x <= tip)):
+    ends = spec.get("ends") or [None]
+    for s, e in [(s_, e_) for s_ in sorted(set(x for x in starts if 0 <= x <= tip)) for e_ in ends if e_ is None or e_ > s_]:
         if s == 0 and not real_g:
             continue
         for cbname in spec.get("callbacks", ["csvdump"]):
             dump = harness.fresh(os.path.join(work, "o"))
-            p = harness.run_cb(binary, d, coin, cbname, dump, s if s else None, None, verify=True, timeout=600)
+            p = harness.run_cb(binary, d, coin, cbname, dump, s if s else None, e, verify=True, timeout=600)
             runs += 1
             if p.rc != 0:
                 v.append(viol("rejected-consistent-chain", "--verify rejected a consistent chain (%s, start=%d, tx counts %s...): %s" % (
                     coin, s, spec["txcounts"][:8], (p.err or p.out)[-300:].replace("\n", " | "))))
                 continue
             if cbname == "csvdump":
-                bad = oracles.check_csvdump(p, dump, chain, coin, s, None)
+                bad = oracles.check_csvdump(p, dump, chain, coin, s, e)
             elif cbname == "unspentcsvdump":
-                bad = oracles.check_unspent(p, dump, chain, coin, s, None)
+                bad = oracles.check_unspent(p, dump, chain, coin, s, e)
             else:
-                bad = oracles.check_balances(p, dump, chain, coin, s, None)
+                bad = oracles.check_balances(p, dump, chain, coin, s, e)
             v.extend(viol("accepted-but-" + sig, det) for sig, det in bad)
-            shapes.append("accept|%s|start=%s|%s" % (coin, "0" if s == 0 else ("tip" if s == tip else "mid"), cbname))
+            shapes.append("accept|%s|start=%s|end=%s|%s" % (coin, "0" if s == 0 else ("tip" if s == tip else "mid"), "none" if e is None else "set", cbname))
     shutil.rmtree(work, ignore_errors=True)
     return {"evaluations": runs, "violations": v, "shapes": shapes,
             "counters": {"runs": runs, "accept_runs": runs, "max_tree_shapes": len(set(spec["txcounts"])), "real_genesis_chains": 1 if real_g else 0},
@@ -174,7 +175,7 @@ def negative_case(spec):
         start = spec.get("start")
         if start is None:
             start = 0 if real_g else 1
-        if h < start:
+        if h < start or (spec.get("end") is not None and h > spec["end"]):
             continue
         orig = None
         with open(blk, "r+b") as f:
@@ -196,7 +197,7 @@ def negative_case(spec):
                 f.write(struct.pack("<I", len(other)) + other)
         dump = harness.fresh(os.path.join(work, "o"))
         cbname = spec.get("callback", "csvdump")
-        p = harness.run_cb(binary, d, coin, cbname, dump, start if start else None, None, verify=True, timeout=300)
+        p = harness.run_cb(binary, d, coin, cbname, dump, start if start else None, spec.get("end"), verify=True, timeout=300)
         runs += 1
         counters["faults"] += 1
         counters["faults:" + field] = counters.get("faults:" + field, 0) + 1
@@ -222,7 +223,7 @@ def negative_case(spec):
     start0 = spec.get("start")
     if start0 is None:
         start0 = 0 if real_g else 1
-    p = harness.run_cb(binary, d, coin, "csvdump", dump, start0 if start0 else None, None, verify=True)
+    p = harness.run_cb(binary, d, coin, "csvdump", dump, start0 if start0 else None, spec.get("end"), verify=True)
     runs += 1
     inc = []
     if p.rc != 0:
@@ -292,7 +293,8 @@ def plan(chk):
     for i in range(200 if chk.thorough else 10):
         n += 1
         specs.append(dict(case="accept", coin=rng.choice(COIN_NAMES), seed=chk.seed, chain="rnd-%d" % i, n=n,
-                          txcounts=[rng.randint(1, 40) for _ in range(rng.randint(2, 12))], profile="debug" if i % 3 == 0 else "release"))
+                          txcounts=[rng.randint(1, 40) for _ in range(rng.randint(2, 12))], profile="debug" if i % 3 == 0 else "release",
+                          ends=[None, 2, 1] if i % 2 == 0 else None))
     # soundness
     tx_counts = [1, 2, 3, 5]
     for ci, coin in enumerate(COIN_NAMES):
@@ -305,6 +307,12 @@ def plan(chk):
             n += 1
             specs.append(dict(case="reject", coin=coin, seed=chk.seed, chain="neg-%d" % ci, n=n, txcounts=tx_counts, field=field,
                               targets=[2], start=2))
+    # --verify together with --end only (range starting at height 0): corruption inside the range must still be rejected
+    for ci, coin in enumerate(["bitcoin", "litecoin", "testnet3", "dogecoin"] if chk.thorough else ["bitcoin", "litecoin"]):
+        for field in ("merkle", "prev"):
+            n += 1
+            specs.append(dict(case="reject", coin=coin, seed=chk.seed, chain="negend-%d" % ci, n=n, txcounts=tx_counts, field=field,
+                              targets=[1, 2], end=3, profile="debug" if field == "prev" else "release"))
     if chk.thorough:
         # every bit of every tx byte of a 4-block chain, split over workers by target block
         for ci, coin in enumerate(COIN_NAMES[:4]):
